@@ -1510,3 +1510,430 @@ def classify_sort(got_pos, want_pos, keycols, na_last):
         if [c[p] is None for p in got_pos] != [c[p] is None for p in want_pos]:
             return 'none-placement-secondary-key'
     return 'order'
+
+
+# ======================================================================================
+# joins, round-4 additions (used by C09 / C10; new names only, nothing above is changed):
+#   * adversarial key texts   (adv_text_join_cases)
+#   * larger tables           (large_join_cases)
+#   * the same call repeated after a write to a key cell / a rename of a key column
+#                             (rejoin_cases, eval_rejoin)
+# ======================================================================================
+# ---- adversarial key texts -----------------------------------------------------------------------
+# str key components that contain characters an implementation might use to glue a composite key into
+# one string (unit / record separator, NUL, comma, bar, blank, tab, slash), the empty string, components
+# that are concatenations of other components, and look-alikes of a tuple's repr.  DIFFERENT key tuples
+# stay different however their components could be glued together: only equal tuples pair.
+ADV_SEPS = ['\x1f', '\x00', ',', '|', ' ', '\t', '\x1e', '/']
+ADV_MIXED = ['\x1f', '\x00', ',', '|', '', ' ', 'a,b', 'a', 'b', 'ab', 'a\x1fb', 'x\x1fy', 'y\x1fz', 'x', 'y', 'z',
+             "('a', 'b')", "a', 'b", "'a'", '(a, b)', "a'", "'b", 'a|b', 'None']
+
+
+def adv_family_pool(sep, nk):
+    """Components around ONE separator: shifting it between neighbouring components gives other tuples
+    with the same glued text (('a<sep>b', 'a') / ('a', 'b<sep>a'); ('', '<sep>') / ('<sep>', ''))."""
+    if sep == '':                                   # plain concatenation
+        return ['', 'a', 'b', 'aa', 'ab', 'ba'] if nk == 2 else ['', 'a', 'aa', 'b']
+    if nk == 2:
+        return ['', 'a', 'b', sep, 'a' + sep + 'b', 'b' + sep + 'a', sep + 'a', 'a' + sep, 'ab']
+    return ['', 'a', sep, 'a' + sep + 'a', sep + 'a', 'a' + sep]
+
+
+ADV_TEXTS = []
+for _sep in ADV_SEPS + ['']:
+    for _nk in (2, 3):
+        for _s in adv_family_pool(_sep, _nk):
+            if _s not in ADV_TEXTS:
+                ADV_TEXTS.append(_s)
+for _s in ADV_MIXED:
+    if _s not in ADV_TEXTS:
+        ADV_TEXTS.append(_s)
+KIND_TYPE['atext'] = str
+KIND_POOL['atext'] = dict(enumerate(ADV_TEXTS))          # pattern i -> ADV_TEXTS[i]
+# wide pools for the larger tables: pattern i -> i / 'k007'
+KIND_TYPE['wint'] = int
+KIND_TYPE['wstr'] = str
+KIND_POOL['wint'] = {i: i for i in range(1000)}
+KIND_POOL['wstr'] = {i: 'k%03d' % i for i in range(1000)}
+
+
+def adv_families(tier, heavy=False):
+    """(label, key columns, component texts)"""
+    q = tier == 'quick'
+    fams = []
+    for i, sep in enumerate(ADV_SEPS + ['']):
+        name = 'concat' if sep == '' else 'sep-%02x' % ord(sep)
+        fams.append((f'advtext-2key-{name}', 2, adv_family_pool(sep, 2)))
+        if not (q and heavy and i % 2):
+            fams.append((f'advtext-3key-{name}', 3, adv_family_pool(sep, 3)))
+    fams.append(('advtext-2key-mixed', 2, ADV_MIXED if not (q and heavy) else ADV_MIXED[:16]))
+    if not q:
+        fams.append(('advtext-3key-mixed', 3, ADV_MIXED[:9]))
+    return fams
+
+
+def adv_text_join_cases(tier, heavy=False):
+    """Per family two pairs of tables over ALL key tuples of the family's components:
+       'all-vs-all'   left = every tuple once, right = every tuple once in reversed order followed by a
+                      second copy of the first three (some many-to-one pairs);
+       'halves'       left = the tuples at even positions (+ one None-keyed row, so nullable key columns),
+                      right = those at odd positions plus every fourth tuple: most rows are unmatched
+                      although their glued texts have a partner on the other side."""
+    idx = 0
+    for label, nk, texts in adv_families(tier, heavy):
+        ids = [ADV_TEXTS.index(s) for s in texts]
+        tuples = [list(c) for c in itertools.product(ids, repeat=nk)]
+        layouts = [('all-vs-all', tuples, tuples[::-1] + tuples[:3]),
+                   ('halves', tuples[0::2] + [[None] + tuples[1][1:]], tuples[1::2] + tuples[0::4])]
+        for lay, lk, rk in layouts:
+            idx += 1
+            case = {'block': label, 'layout': lay, 'kinds': ['atext'] * nk, 'lk': lk, 'rk': rk}
+            case.update(_cfg(idx))
+            if case['mode'] == 'ext' and (case['pl'] == 0 or case['pr'] == 0):
+                case['mode'] = 'col'
+            yield case
+
+
+# ---- larger tables ---------------------------------------------------------------------------------
+LARGE_SIZES = [9, 12, 17, 33]
+LARGE_RIGHT = ['distinct', 'paired', 'cyclic']
+LARGE_KINDS = [['wint'], ['wstr'], ['wint', 'wstr'], ['wint']]
+
+
+def large_right_keys(variant, n):
+    if variant == 'distinct':
+        return list(range(n))
+    if variant == 'paired':
+        return [j // 2 for j in range(n)]               # neighbouring rows share a key
+    return [j % 5 for j in range(n)]                    # five keys, their rows interleaved
+
+
+def large_matched(n):
+    """(label, matched right ROW positions): the left table holds exactly the keys of these rows."""
+    return [
+        ('low-half', list(range(n // 2 + 1))),            # unmatched right rows at the high positions
+        ('high-half', list(range(n // 2, n))),
+        ('evens', list(range(0, n, 2))), ('odds', list(range(1, n, 2))),
+        ('all-but-4th-and-last', [j for j in range(n) if j not in (3, n - 1)]),
+        ('all-but-first-and-9th', [j for j in range(n) if j not in (0, 8)]),
+        ('first-five', list(range(5))), ('only-last', [n - 1]), ('every-third', list(range(0, n, 3))),
+        ('none', []), ('all', list(range(n))),
+    ]
+
+
+def large_join_cases(tier, heavy=False):
+    """Right tables of 9 / 12 / 17 / 33 rows (distinct keys, neighbouring duplicates, interleaved duplicates),
+    left tables that hold the keys of a structured subset of the right rows - ascending or descending, an
+    unmatched (foreign) key after every second row, optionally every key twice - so several matched and
+    several unmatched rows on both sides, unmatched rows at high positions and interleaved."""
+    idx = 0
+    for n in LARGE_SIZES:
+        for variant in LARGE_RIGHT:
+            rkeys = large_right_keys(variant, n)
+            for mlabel, rows in large_matched(n):
+                for order in ('asc', 'desc-twice'):
+                    idx += 1
+                    if tier == 'quick' and heavy and (idx + n) % 2:
+                        continue
+                    keys = []
+                    for j in rows:
+                        if rkeys[j] not in keys:
+                            keys.append(rkeys[j])
+                    if order == 'desc-twice':
+                        keys = [k for k in keys[::-1] for _ in (0, 1)]
+                    lkeys = []
+                    for p, k in enumerate(keys):
+                        lkeys.append(k)
+                        if p % 2:
+                            lkeys.append(500 + p)            # a key the right table does not hold
+                    if not keys:
+                        lkeys = [500 + p for p in range(n)]
+                    kinds = LARGE_KINDS[idx % len(LARGE_KINDS)]
+                    if len(kinds) == 2:
+                        lk = [[k, k % 2] for k in lkeys]
+                        rk = [[k, k % 2] for k in rkeys]
+                    else:
+                        lk, rk = [[k] for k in lkeys], [[k] for k in rkeys]
+                    case = {'block': f'large-{variant}', 'matched': mlabel, 'order': order, 'kinds': kinds, 'lk': lk, 'rk': rk}
+                    case.update(_cfg(idx))
+                    if case['mode'] == 'ext' and (case['pl'] == 0 or case['pr'] == 0):
+                        case['mode'] = 'col'
+                    yield case
+
+
+def family_tag(case):
+    """Failure-class suffix of a join case (hc_tag plus the round-4 families)."""
+    b = case.get('block', '')
+    if b.startswith('advtext'):
+        return ':adversarial-key-texts'
+    if b.startswith('large-'):
+        return ':larger-tables'
+    return hc_tag(case)
+
+
+def big_join_descr(case, op, expect_src="expect='many_to_many'"):
+    """join_descr for the families whose key lists are long: the parameters instead of the lists."""
+    b = case.get('block', '')
+    if b.startswith('advtext'):
+        texts = sorted({ADV_TEXTS[p] for r in case['lk'] + case['rk'] for p in r if p is not None}, key=ADV_TEXTS.index)
+        return (f"{op}({expect_src}) on {len(case['kinds'])} str key columns, rows = all key tuples over the components {texts!r} "
+                f"(layout {case['layout']}: {len(case['lk'])} left rows, {len(case['rk'])} right rows) mode={case['mode']} names={case['names']} "
+                f"payload={case['pl']}/{case['pr']}")
+    if b.startswith('large-'):
+        return (f"{op}({expect_src}) kinds={case['kinds']} left keys={[r[0] for r in case['lk']]} right keys={[r[0] for r in case['rk']]} "
+                f"({b}, left holds the keys of the right rows '{case['matched']}', {case['order']}) mode={case['mode']} names={case['names']} "
+                f"payload={case['pl']}/{case['pr']}")
+    return join_descr(case, op, expect_src)
+
+
+def explain_row_difference(fails, n_before, setup, got, want):
+    """Long tables: add the first offending row to the message of the row failures appended since n_before."""
+    if got is None or len(fails) == n_before:
+        return
+    have, need = Counter(map(rkey, got)), Counter(map(rkey, want))
+    extra = next((r for r in got if have[rkey(r)] > need[rkey(r)]), None)
+    missing = next((r for r in want if need[rkey(r)] > have[rkey(r)]), None)
+    if extra is None and missing is None:
+        pos = next((i for i, (g, w) in enumerate(zip(got, want)) if not same(tuple(g), tuple(w))), None)
+        note = f'same rows, order differs from output row {pos}: got {got[pos]!r}, definition has {want[pos]!r}' if pos is not None else ''
+    else:
+        note = (f'row not in the definition: {extra!r}' if extra is not None else '') + \
+               (f' row of the definition not returned: {missing!r}' if missing is not None else '')
+    for f in fails[n_before:]:
+        if ':row-' in f['key']:
+            f['what'] += ' -- ' + note.strip()
+
+
+# ---- the same join again after a write -----------------------------------------------------------
+# Every call answers for the contents the tables have AT THAT MOMENT.  Histories: call, rewrite ONE key cell
+# in place (through a live column view or through table cell assignment) to a DIFFERENT value, call again,
+# write the old value back, call a third time.  The value pairs include ints that differ but have equal
+# Python hashes (-1 / -2, 0 / 2**61-1): anything derived from hashes of the key columns cannot tell the
+# two states apart.  Also: swap the names of the key column and a second candidate column through live views
+# between two calls that give the key BY NAME.
+REJOIN_PAIRS = [('neg', -1, -2, 7), ('mersenne', 0, MERSENNE61, 5), ('plain', 1, 2, 3)]
+REJOIN_VIAS = ['attr-view', 'item-view', 'cols-view', 'cell-by-name', 'cell-by-position']
+RENAME_HOWS = ['item-view', 'attr-view', 'cols-view']
+
+
+def rejoin_cases(tier, joins):
+    q = tier == 'quick'
+    idx = 0
+    for label, a, b, c in REJOIN_PAIRS:
+        pool = [a, b, c]
+        fixed = [[a, c, b, a], [b, a]]
+        varying = [list(s) for n in range(1, 4) for s in itertools.product(pool, repeat=n)]
+        for side in ('R', 'L'):
+            for other in (fixed if not q else fixed[:1]):
+                for seq in varying:
+                    if q and len(seq) == 3 and (side == 'L' or label == 'plain'):
+                        continue
+                    for row in range(len(seq)):
+                        for new in pool:
+                            if new == seq[row]:
+                                continue
+                            for kind in joins:
+                                idx += 1
+                                lk, rk = (other, seq) if side == 'R' else (seq, other)
+                                yield {'op': 'rejoin', 'join': kind, 'pair': label, 'side': side, 'lk': lk, 'rk': rk, 'row': row, 'new': new,
+                                       'via': REJOIN_VIAS[idx % len(REJOIN_VIAS)], 'spec': 'name' if (idx // 5) % 3 else 'col',
+                                       'nk': 2 if (idx // 7) % 3 == 0 else 1}
+    # ---- key column renamed (names swapped with a second candidate column) through live views
+    pool = [1, 2, 3]
+    nxt = {1: 2, 2: 3, 3: 1}
+    for seq in [list(s) for n in range(1, 4) for s in itertools.product(pool, repeat=n)]:
+        for side in ('R', 'L'):
+            for how in RENAME_HOWS:
+                for kind in joins:
+                    idx += 1
+                    if q and idx % 2:
+                        continue
+                    other = [1, 3, 2, 1]
+                    lk, rk = (other, seq) if side == 'R' else (seq, other)
+                    yield {'op': 'rejoin', 'join': kind, 'pair': 'rename', 'side': side, 'lk': lk, 'rk': rk,
+                           'alt': [nxt[k] for k in seq], 'how': how}
+
+
+def defn_join(kind, lrows, rrows, lkeys, rkeys):
+    """inner_join / join / full_join by the nested-loop definitions of C09 / C10."""
+    nl = len(lrows[0]) if lrows else None
+    out, matched = [], set()
+    for i, l in enumerate(lrows):
+        hit = False
+        for j, r in enumerate(rrows):
+            if lkeys[i] == rkeys[j]:
+                out.append(l + r)
+                matched.add(j)
+                hit = True
+        if not hit and kind != 'inner_join':
+            out.append(l + (None,) * len(rrows[0]))
+    if kind == 'full_join':
+        for j, r in enumerate(rrows):
+            if j not in matched:
+                out.append((None,) * nl + r)
+    return out
+
+
+class RejoinState:
+    """Plain-list model of the two tables of a 'rejoin' history, and the real tables built from it."""
+
+    def __init__(self, case):
+        self.nk = case.get('nk', 1)
+        self.lcols = {'k': list(case['lk'])}
+        self.rcols = {'q': [f'R{i}' for i in range(len(case['rk']))], 'j': list(case['rk'])}
+        if 'alt' in case:
+            side = self.lcols if case['side'] == 'L' else self.rcols
+            side['alt'] = list(case['alt'])
+        if self.nk == 2:
+            self.lcols['c'] = ['u'] * len(case['lk'])
+            self.rcols['d'] = ['u'] * len(case['rk'])
+        self.lcols['p'] = [f'L{i}' for i in range(len(case['lk']))]
+        self.lkey, self.rkey = 'k', 'j'
+
+    def build(self):
+        return (Table([Vector(list(v), name=n) for n, v in self.lcols.items()]),
+                Table([Vector(list(v), name=n) for n, v in self.rcols.items()]))
+
+    def rows(self, cols):
+        n = len(next(iter(cols.values())))
+        return [tuple(v[i] for v in cols.values()) for i in range(n)]
+
+    def keys(self, cols, first, second):
+        return [(cols[first][i],) + ((cols[second][i],) if self.nk == 2 else ()) for i in range(len(cols[first]))]
+
+    def want(self, kind):
+        return defn_join(kind, self.rows(self.lcols), self.rows(self.rcols),
+                         self.keys(self.lcols, self.lkey, 'c'), self.keys(self.rcols, self.rkey, 'd'))
+
+    def names(self):
+        return list(self.lcols) + list(self.rcols)
+
+    def holds(self, L, R):
+        try:
+            return (rows_of(L) == self.rows(self.lcols) and rows_of(R) == self.rows(self.rcols)
+                    and list(L.column_names()) == list(self.lcols) and list(R.column_names()) == list(self.rcols))
+        except Exception:
+            return False
+
+    def call(self, kind, L, R, spec):
+        if spec == 'name':
+            lon, ron = [self.lkey] + (['c'] if self.nk == 2 else []), [self.rkey] + (['d'] if self.nk == 2 else [])
+        else:
+            ln, rn = list(self.lcols), list(self.rcols)
+            lon = [L.cols()[ln.index(self.lkey)]] + ([L.cols()[ln.index('c')]] if self.nk == 2 else [])
+            ron = [R.cols()[rn.index(self.rkey)]] + ([R.cols()[rn.index('d')]] if self.nk == 2 else [])
+        if self.nk == 1:
+            lon, ron = lon[0], ron[0]
+        return getattr(L, kind)(R, lon, ron, expect='many_to_many')
+
+    def verdict(self, kind, L, R, spec):
+        """None when the call gives the definition's table, else a class name; plus what was seen."""
+        want = self.want(kind)
+        try:
+            res = self.call(kind, L, R, spec)
+            got = rows_of(res)
+        except Exception as e:
+            return f'raises:{type(e).__name__}', repr(e)
+        cls = classify_rows(got, want)
+        if cls is None and (want or list(res.column_names())) and list(res.column_names()) != self.names():
+            return 'column-names', list(res.column_names())
+        return cls, got
+
+
+def eval_rejoin(pid, case):
+    """Runs one history.  A call is reported only when it differs from the definition on the CURRENT contents
+    although the same call on freshly built tables with these contents gives the definition's result - i.e. the
+    outcome depends on what was called before the write (single calls are the subject of the other blocks)."""
+    kind, side = case['join'], case['side']
+    rename = case['pair'] == 'rename'
+    try:
+        st = RejoinState(case)
+        L, R = st.build()
+    except Exception as e:
+        return [Fail(f'{pid}:setup:raises:{type(e).__name__}', f'rejoin {case}: building the tables raised {e!r}', None, repr(e))]
+    spec = 'name' if rename else case['spec']
+    T = R if side == 'R' else L
+    cols = st.rcols if side == 'R' else st.lcols
+    key = st.rkey if side == 'R' else st.lkey
+    tname = 'right' if side == 'R' else 'left'
+    cls, _ = st.verdict(kind, L, R, spec)
+    if cls:
+        return []
+    steps = []
+    if rename:
+        names = list(cols)
+        ia, ib = names.index(key), names.index('alt')
+        how = case['how']
+
+        def handle(nm, i):
+            return T[nm] if how == 'item-view' else getattr(T, nm) if how == 'attr-view' else T.cols()[i]
+
+        def write():
+            va, vb = handle(key, ia), handle('alt', ib)
+            va.name = 'tmp_name'
+            vb.name = key
+            va.name = 'alt'
+            new = {}
+            for nm, v in cols.items():
+                new['alt' if nm == key else key if nm == 'alt' else nm] = v
+            cols.clear()
+            cols.update(new)
+        steps.append((f"the {tname} table's columns {key!r} and 'alt' swap their names through live views ({how})", write))
+        family = 'key-column-renamed-through-view'
+    else:
+        i, new, via = case['row'], case['new'], case['via']
+        old = cols[key][i]
+
+        def writer(value):
+            def write():
+                pos = list(cols).index(key)
+                if via == 'attr-view':
+                    getattr(T, key)[i] = value
+                elif via == 'item-view':
+                    T[key][i] = value
+                elif via == 'cols-view':
+                    T.cols()[pos][i] = value
+                elif via == 'cell-by-name':
+                    T[i, key] = value
+                else:
+                    T[i, pos] = value
+                cols[key][i] = value
+            return write
+        steps.append((f'{tname} key cell [{i}] rewritten {old!r} -> {new!r} ({via})', writer(new)))
+        steps.append((f'{tname} key cell [{i}] written back {new!r} -> {old!r} ({via})', writer(old)))
+        family = f'{tname}-key-cell-rewritten' + ('-to-a-hash-colliding-value' if case['pair'] != 'plain' and {old, new} == set(REJOIN_PAIRS[[p[0] for p in REJOIN_PAIRS].index(case['pair'])][1:3]) else '')
+    history = f"{kind}(left keys {case['lk']}, right keys {case['rk']}, {st.nk} key column(s), keys by {spec}) called"
+    for what, write in steps:
+        try:
+            write()
+        except Exception:
+            return []                 # the write itself is C08's business
+        if not st.holds(L, R):
+            return []                 # the write did not take as modelled: not this property's business
+        history += f'; then {what}; called again'
+        cls, seen = st.verdict(kind, L, R, spec)
+        if cls:
+            try:
+                fresh_cls, _ = st.verdict(kind, *st.build(), spec)
+            except Exception:
+                fresh_cls = 'setup'
+            if fresh_cls is None:
+                return [Fail(f'{pid}:{kind}-repeated:{family}:stale-{cls}',
+                             f'{history}: the last result does not follow the definition on the current contents (left rows '
+                             f'{st.rows(st.lcols)}, right rows {st.rows(st.rcols)}); the same call on freshly built tables does',
+                             st.want(kind), seen, f'{pid}:{kind}:post')]
+            return []
+    return []
+
+
+def rejoin_signature(case):
+    return ('rejoin', case['join'], case['pair'], case['side'], len(case['lk']), len(case['rk']), case.get('via'), case.get('how'),
+            case.get('spec'), case.get('nk'), case.get('row'))
+
+
+def round4_bound(tier, heavy, joins):
+    return {'adversarial_text_families(label, key columns, components)': [[f[0], f[1], [repr(t) for t in f[2]]] for f in adv_families(tier, heavy)],
+            'larger_tables': {'right_rows': LARGE_SIZES, 'right_keys': LARGE_RIGHT, 'matched_right_rows': [m[0] for m in large_matched(9)],
+                              'left_order': ['asc', 'desc-twice'], 'kinds': LARGE_KINDS},
+            'repeated_calls': {'joins': joins, 'value_pairs(label, a, b, third value)': REJOIN_PAIRS, 'write_via': REJOIN_VIAS,
+                               'rename_via': RENAME_HOWS, 'histories': sum(1 for _ in rejoin_cases(tier, joins))}}
